@@ -755,3 +755,75 @@ theorem C09_native_out_type_tests_equivalence :
 example : C09.typeTestOn "output" (.typeNe "output" 9) = some false ∧
     C09.typeTestOn "output" (.whenNotNone "output" (.typesDiffer ["output", "array"])) = some true ∧
     C09.typeTestOn "output" (.notCArray "output") = none := by decide
+
+/-! ### Round 4: the whole flow of `hitmiss`, degenerate buffers -/
+
+/-- what `hitmiss` accepts: the input's shape, C-contiguous, and the input's dtype or a bool buffer for a uint8 input -/
+def C09.HitmissAcceptable (inp o : Desc) : Prop :=
+  o.shape = inp.shape ∧ o.ccontig = true ∧ (o.dtype = inp.dtype ∨ (o.dtype = C09.dtBool ∧ inp.dtype = C09.dtU8))
+
+instance (inp o : Desc) : Decidable (C09.HitmissAcceptable inp o) := by
+  unfold C09.HitmissAcceptable; infer_instance
+
+/-- **C09 (`hitmiss`, the whole flow; until round 4 only its decision function was modelled).** With a buffer it accepts
+(`C09.HitmissAcceptable`: also the bool buffer whose uint8 view is written) the call returns **that buffer** holding the result and
+leaves the inputs alone; any other buffer raises (shape → contiguity → dtype, in source order) with the buffer still `old` and the
+inputs intact; without `out` a fresh buffer holds the result; and with the image itself as `out` (`AliasSafe`) the guard makes the
+kernel read a copy. -/
+theorem C09_flow_hitmiss (g : Bool) (inp bc o : Desc) :
+    ((hitmissP g 0 1 none (initSt [inp, bc] none)).retVal = some (.ap .kernel (.inp 0) (.inp 1)) ∧
+      intact (hitmissP g 0 1 none (initSt [inp, bc] none)).st 2) ∧
+    (C09.HitmissAcceptable inp o →
+      (hitmissP g 0 1 (some 2) (initSt [inp, bc] (some o))).ret = some 2 ∧
+      (hitmissP g 0 1 (some 2) (initSt [inp, bc] (some o))).st.val 2 = .ap .kernel (.inp 0) (.inp 1) ∧
+      intact (hitmissP g 0 1 (some 2) (initSt [inp, bc] (some o))).st 2) ∧
+    (¬ C09.HitmissAcceptable inp o →
+      (hitmissP g 0 1 (some 2) (initSt [inp, bc] (some o))).ret = none ∧
+      (hitmissP g 0 1 (some 2) (initSt [inp, bc] (some o))).st.val 2 = .old ∧
+      intact (hitmissP g 0 1 (some 2) (initSt [inp, bc] (some o))).st 2) ∧
+    (inp.ccontig = true → AliasSafe [inp, bc] 0 (hitmissP true 0 1) (.ap .kernel (.inp 0) (.inp 1))) := by
+  refine ⟨?_, ?_, ?_, ?_⟩
+  · cases g <;> flowG_eval hitmissP, hitmissOut
+  · rintro ⟨h1, h2, h3⟩
+    rcases h3 with h3 | ⟨h3, h4⟩
+    · cases g <;> flowG_eval hitmissP, hitmissOut, h1, h2, h3
+    · by_cases hd : o.dtype = inp.dtype
+      · cases g <;> flowG_eval hitmissP, hitmissOut, h1, h2, hd
+      · have hne : ¬ C09.dtBool = C09.dtU8 := by decide
+        cases g <;> flowG_eval hitmissP, hitmissOut, h1, h2, h3, h4, hd, hne
+  · intro h
+    unfold C09.HitmissAcceptable at h
+    by_cases h1 : o.shape = inp.shape
+    · by_cases h2 : o.ccontig = true
+      · have h3 : ¬ o.dtype = inp.dtype := fun e => h ⟨h1, h2, Or.inl e⟩
+        have h4 : ¬ (o.dtype = C09.dtBool ∧ inp.dtype = C09.dtU8) := fun e => h ⟨h1, h2, Or.inr e⟩
+        cases g <;> flowG_eval hitmissP, hitmissOut, h1, h2, h3, h4
+      · have h2' : o.ccontig = false := by cases hc : o.ccontig <;> simp_all
+        cases g <;> flowG_eval hitmissP, hitmissOut, h1, h2'
+    · cases g <;> flowG_eval hitmissP, hitmissOut, h1
+  · intro hc
+    flowG_eval hitmissP, hitmissOut, hc
+
+/-- **C09 (degenerate buffers: goal "reject + untouched").** A 0-d `out` for an array of rank ≥ 1, a zero-size `out` for an
+array without an empty axis, and any buffer that is not C-contiguous (a view with negative strides, a zero-stride broadcast
+view, a Fortran-ordered or strided buffer: `ccontig = false`) are never accepted by `_get_output` — so, by the flow theorems,
+the call raises with the buffer untouched; a zero-size `out` IS accepted for an equally shaped empty array. -/
+theorem C09_getOutput_degenerate_out (a o : Desc) (dt : Option Nat) :
+    (o.shape = [] → a.shape ≠ [] → ∃ r, getOutput a (some o) dt = .reject r) ∧
+    (0 ∈ o.shape → 0 ∉ a.shape → ∃ r, getOutput a (some o) dt = .reject r) ∧
+    (o.ccontig = false → ∃ r, getOutput a (some o) dt = .reject r) ∧
+    (0 ∈ a.shape → Acceptable a o dt → 0 ∈ o.shape ∧ getOutput a (some o) dt = .useOut) := by
+  refine ⟨fun h1 h2 => ?_, fun h1 h2 => ?_, fun h => ?_, fun h1 h2 => ?_⟩
+  · exact getOutput_reject_of_not a o dt (fun ⟨_, hs, _⟩ => h2 (hs ▸ h1))
+  · exact getOutput_reject_of_not a o dt (fun ⟨_, hs, _⟩ => h2 (hs ▸ h1))
+  · exact getOutput_reject_of_not a o dt (fun ⟨_, _, hc⟩ => by rw [h] at hc; exact absurd hc (by simp))
+  · exact ⟨h2.2.1 ▸ h1, (getOutput_useOut_iff a o dt).2 h2⟩
+
+example :
+    let f : Desc := { dtype := C09.dtU8, shape := [3, 4], ccontig := true }
+    C09.HitmissAcceptable f { f with dtype := C09.dtBool } ∧ ¬ C09.HitmissAcceptable f { f with ccontig := false } ∧
+    (hitmissP true 0 1 (some 2) (initSt [f, f] (some { f with dtype := C09.dtBool }))).ret = some 2 ∧
+    (∃ r, getOutput f (some { f with shape := [] }) none = .reject r) ∧
+    getOutput { f with shape := [0, 4] } (some { f with shape := [0, 4] }) none = .useOut := by
+  intro f
+  refine ⟨by decide, by decide, by decide, ⟨.shape, by decide⟩, by decide⟩
